@@ -386,6 +386,18 @@ def check_C14(hs: History, conns, ex: Expect, ob: Obs):
     notices = [f["p"]["dec"] for f in mon if f["h"]["type"] == MT["FAILED_MESSAGE"] and is_mgr(f) and f["p"]["dec"]]
     nolist = {MT[k] for k in ("FAILED_MESSAGE", "RTMA_LOG", "RTMA_LOG_CRITICAL", "RTMA_LOG_ERROR", "RTMA_LOG_WARNING",
                               "RTMA_LOG_INFO", "RTMA_LOG_DEBUG")}
+    # one failed delivery, one notice: the same (named module, embedded header incl. its stamped count and times) can
+    # not be reported twice to one subscriber - a repeated notice means a notice object was reused while in flight
+    seen_n = set()
+    for n in notices:
+        e = n[2]
+        k = (n[1], e["type"], e["count"], e["src_mod"], e["dst_mod"], e["nbytes"], tuple(e["x"]))
+        if k in seen_n and e["x"][0] >= 1000.0:
+            # (client frames of the harness carry a unique send_time >= 1000; two manager-originated messages of one
+            # round - e.g. two CLIENT_CLOSED - have identical headers, so notices about them may legitimately coincide)
+            out.append(("notice:duplicate", f"the same FAILED_MESSAGE (module {n[1]}, embedded type {e['type']} count {e['count']}) "
+                                            f"was delivered twice to the monitor"))
+        seen_n.add(k)
     for d in ex.deliveries:
         if d["uncertain"] or not d["valid"]:
             continue
@@ -598,7 +610,8 @@ def gen_monitored(rng: random.Random, flavor: str, nrounds: int = 16) -> History
             elif op == "publish":
                 tp = TYPES * 6 + [5000, 9999, 10000, 20000]
                 if flavor == "stats":
-                    tp = list(range(300, 300 + rng.choice([1, 2, 63, 64, 65, 130]))) + TYPES + [0, 0, 10000]
+                    tp = list(range(300, 300 + rng.choice([1, 2, 63, 64, 65, 130]))) + TYPES + [0, 0, 10000] + \
+                         [4999, 5000, 5001, 7321, 9998, 9999] * 2      # both halves of the TIMING array
                 t = rng.choice(tp)
                 others = [st[x]["mid"] for x in live if st[x]["mid"] > 0]
                 dm = rng.choice([0] * 6 + others * 3 + [50, 200, 201, -1])
